@@ -18,8 +18,7 @@ def mass_table():
     rows = ['[el |-> "%s", m |-> %d]' % (el, round(m * 1e6)) for el, m in am.ATOMIC_MASSES.items()]
     text = ("---- MODULE MassTable ----\n\\* generated from /repo/mofun/atomic_masses.py (micro mass units, table order)\n"
             "Table == <<\n  " + ",\n  ".join(rows) + "\n>>\n====\n")
-    with open(os.path.join(gen_dir(), "MassTable.tla"), "w") as fh:
-        fh.write(text)
+    _write_atomically(os.path.join(gen_dir(), "MassTable.tla"), text)
     return gen_dir()
 
 
@@ -31,8 +30,7 @@ def radius_table():
             "Radius(e) == CASE " + cases + "\n"
             "RadiusElements == <<" + ", ".join('"%s"' % e for e in db.COVALENT_RADII) + ">>\n"
             "NonMetals == {" + ", ".join('"%s"' % e for e in db.NON_METALS) + "}\n====\n")
-    with open(os.path.join(gen_dir(), "RadiusTable.tla"), "w") as fh:
-        fh.write(text)
+    _write_atomically(os.path.join(gen_dir(), "RadiusTable.tla"), text)
     return gen_dir()
 
 
@@ -49,9 +47,16 @@ def uff_table():
     text = ("---- MODULE UffTable ----\n\\* generated from /repo/mofun/uff4mof.py: type name, element, hybridisation character (third character of the\n"
             "\\* name, \"0\" if none), natural angle in 0.01 degree, main-group flag, oxygen-group flag\n"
             "UffTypes == <<\n  " + ",\n  ".join(rows) + "\n>>\n====\n")
-    with open(os.path.join(gen_dir(), "UffTable.tla"), "w") as fh:
-        fh.write(text)
+    _write_atomically(os.path.join(gen_dir(), "UffTable.tla"), text)
     return gen_dir()
+
+
+def _write_atomically(path, text):
+    """several checks may run at the same time and all regenerate the tables: never expose a half-written file"""
+    tmp = "%s.%d.tmp" % (path, os.getpid())
+    with open(tmp, "w") as fh:
+        fh.write(text)
+    os.replace(tmp, path)
 
 
 def all_tables():
